@@ -419,3 +419,105 @@ def check_C15(replay=None):
 def check_C16(replay=None):
     return _run_family("C16", DBG_RULE % "every resuming command issued at PC = 0xFFFF, below the origin, at/above 0xFE00 and parked on HALT (reached by computed jumps, goto, eval jmp), followed by end of input; the run-loop iteration count is bounded by executed instructions + consumed commands (ProgressBound) and the step budget must never be exhausted",
                        DBG_ASSUME, _dbg_jobs("progress", enum_len=2), replay, mc=_mc_dbg("live"))
+
+
+# --------------------------------------------------------------------------------------------
+# C14  command language
+# --------------------------------------------------------------------------------------------
+
+def _c14_key(reason, ev):
+    text = (ev.get("text") or "").strip().split(" ")
+    if text and text[0] == "sudo":
+        return "command-name=sudo"
+    if ev["ev"] == "cmd":
+        return "cmdline:" + (text[0].lower() if text else "?")
+    return _dbg_key(reason, ev, None)
+
+
+def _transport_events(chk, n, seed):
+    """Run the real binary with a script delivered through --command, stdin, and split at every command boundary."""
+    import random
+    rnd = random.Random(seed)
+    d = _wpath("c14_cli")
+    os.makedirs(d, exist_ok=True)
+    src = os.path.join(d, "t.asm")
+    open(src, "w").write("halt\n")
+    pieces = ["echo a", " echo b ", "echo  c d", "", "  ", "echo é", "echo 😀x", "echo ✓", "ECHO up", "echo", "bogus", "echo a;b".split(";")[0], "echo tab\tin", "r", "echo \r"]
+    events = []
+    for k in range(n):
+        m = rnd.randint(0, 6)
+        script = ""
+        for i in range(m):
+            script += rnd.choice(pieces) + rnd.choice([";", "\n", ";", "\n", ";;", "\n\n", " ;", "\r\n"])
+        if rnd.random() < 0.5:
+            script += rnd.choice(pieces)
+        # command boundaries
+        cuts = [0, len(script)] + [i + 1 for i, c in enumerate(script) if c in ";\n"]
+        for cut in sorted(set(cuts)):
+            arg, stdin = script[:cut], script[cut:]
+            argv = ["debug", "--minimal", src]
+            if arg != "" or cut == len(script):
+                argv += ["--command", arg]
+            code, out, err = vlib.run_lace(argv, stdin=stdin.encode())
+            lines = [x for x in err.decode("utf-8", "replace").split("\n") if x.startswith("[") and x.endswith("]")]
+            events.append({"ev": "transport", "arg": vlib.chars(arg), "stdin": vlib.chars(stdin), "lines": lines, "code": code,
+                           "script": script, "cut": cut})
+    return events
+
+
+def check_C14(replay=None):
+    chk = Check("C14")
+    chk.rule = ("case = command line; tokens: EVERY string up to a bounded length over {+ - # x o b 0 1 7 9 a f g ^ r _} as the argument of `move r1 T`, `goto T`, `print T` "
+                "in a real debugger session (the value in R1 / the new PC / the printed word reveal the parse); names: every command name, alias and listed misspelling in three letter cases with argument lists of every arity; "
+                "random longer tokens incl. i32/u16/i16 edges in each radix and multi-byte characters; Trace_Debug.tla parses the raw line with CmdLang!ParseLine and the observed effect and output must be that command's. "
+                "transports: scripts split between --command and stdin at every command boundary through the real binary; echoed lines must equal CmdLang!Deliver. distinct = command lines")
+    chk.assumptions = ["J8: the `sudo` easter egg is a listed known finding", "eval text is not parsed by CmdLang (C15 covers eval)"]
+    vlib.build(need_cli=True)
+    if replay:
+        raise vlib.ToolError("re-run `bin/check C14`; the replay file holds the failing session")
+    thorough = chk.tier == "thorough"
+    res = tlc_mc("MC_CmdLang", "MC_CmdLang_deep.cfg" if thorough else "MC_CmdLang.cfg", workers=8, coverage=False)
+    chk.add_mc(res, "MC_CmdLang")
+    jobs = []
+    L = 4 if thorough else 3
+    parts = 8 if thorough else 4
+    for ph in range(parts):
+        jobs.append(("tok%d" % ph, ["gen", "cmd", "--mode", "tokens", "--len", L, "--stride", parts, "--phase", ph, "--seed", chk.seed]))
+    jobs.append(("names", ["gen", "cmd", "--mode", "names", "--seed", chk.seed]))
+    for k in range(4 if thorough else 1):
+        jobs.append(("rnd%d" % k, ["gen", "cmd", "--mode", "random", "--n", 3000 if thorough else 600, "--seed", chk.seed * 5 + k]))
+
+    def gen(job):
+        name, args = job
+        out = _wpath("c14_%s.ndjson" % name)
+        summ = harness(args + ["--out", out])
+        return out, summ, tlc_trace("Trace_Debug", out, timeout=2400)
+    ncmd = 0
+    for out, summ, res in parallel(gen, jobs, 8):
+        chk.add_trace(res, summ.get("sessions", 0))
+        ncmd += res["nrec"]
+        if res["consumed"] != res["nrec"]:
+            raise vlib.ToolError("Trace_Debug consumed %s of %s events" % (res["consumed"], res["nrec"]))
+        for i in sorted(res["bad"]):
+            sess = _session_of(out, i)
+            ev = sess[-1]
+            chk.violation(_c14_key(res["bad"][i], ev), "command line %r: observed effect/output is not that of CmdLang!ParseLine's command: %s" %
+                          (ev.get("text"), json.dumps(_slim_ev(ev))[:300]), {"family": "cmd", "events": [_slim_ev(e) for e in sess[-3:]]})
+        if not chk.samples:
+            chk.samples = [_slim_ev(e) for e in vlib.sample_lines(out, 14)[-2:]]
+        os.remove(out)
+    # transports
+    tev = _transport_events(chk, 60 if thorough else 12, chk.seed)
+    tpath = _wpath("c14_transport.ndjson")
+    with open(tpath, "w") as f:
+        for e in tev:
+            f.write(json.dumps(e) + "\n")
+    res = tlc_trace("Trace_Cli", tpath)
+    chk.add_trace(res, len(tev))
+    for i in sorted(res["bad"]):
+        e = tev[i - 1]
+        chk.violation("transport", "script %r split at %d: echoed %r" % (e["script"], e["cut"], e["lines"]), {"family": "cli", "events": [e]})
+    chk.samples.append(tev[len(tev) // 2])
+    chk.evaluations = ncmd + len(tev)
+    chk.distinct = chk.evaluations
+    return chk.finish()
